@@ -7,6 +7,7 @@ package zsimrt
 import (
 	"fmt"
 	"reflect"
+	"runtime"
 	"sort"
 	"strings"
 	"sync"
@@ -74,10 +75,11 @@ type Draw struct {
 type BudgetExceeded struct {
 	What  string
 	Count uint64
+	Where string
 }
 
 func (b BudgetExceeded) Error() string {
-	return fmt.Sprintf("simulated step budget exceeded: %s=%d", b.What, b.Count)
+	return fmt.Sprintf("simulated step budget exceeded: %s=%d in %s", b.What, b.Count, b.Where)
 }
 
 // Order policies of the map-order seam.
@@ -117,6 +119,7 @@ type Run struct {
 	NonCanon map[string]int // site -> executions with >=2 keys and a non-canonical order
 	MultiKey map[string]int // site -> executions with >=2 keys
 	Steps    uint64
+	Depth, MaxDepth, MaxDepthSeen int
 	KeysCalls uint64
 	MaxSteps uint64
 	MaxKeys  uint64
@@ -132,7 +135,7 @@ var active atomic.Pointer[Run]
 func NewRun(seed uint64) *Run {
 	return &Run{Seed: seed, r: newRng(seed), digest: 14695981039346656037, sitePol: map[string]int{}, siteSeen: map[string]int{}, DefPol: -1,
 		NonCanon: map[string]int{}, MultiKey: map[string]int{}, Probes: map[string]int{},
-		MaxSteps: 5_000_000, MaxKeys: 2_000_000}
+		MaxSteps: 5_000_000, MaxKeys: 2_000_000, MaxDepth: 50_000}
 }
 
 // NewReplay creates a run served from a recorded draw log.
@@ -222,16 +225,66 @@ func Probe(name string) {
 
 // ---------------------------------------------------------------- R6 step counter
 
-// Step is inserted at every function entry of the library.
+// Step is inserted at every function entry of the library, followed by `defer zsimrt.Leave()`.
 func Step() {
 	r := active.Load()
 	if r == nil {
 		return
 	}
 	r.Steps++
-	if r.Steps > r.MaxSteps {
-		panic(BudgetExceeded{"function-entries", r.Steps})
+	r.Depth++
+	if r.Depth > r.MaxDepthSeen {
+		r.MaxDepthSeen = r.Depth
 	}
+	if r.Steps > r.MaxSteps {
+		panic(BudgetExceeded{"function-entries", r.Steps, callerName(2)})
+	}
+	if r.Depth > r.MaxDepth {
+		panic(BudgetExceeded{"recursion-depth", uint64(r.Depth), recursingFunc()})
+	}
+}
+
+// Leave undoes the depth accounting of Step (also while a panic unwinds).
+func Leave() {
+	if r := active.Load(); r != nil && r.Depth > 0 {
+		r.Depth--
+	}
+}
+
+// recursingFunc names the library function that occurs most often among the innermost 256 frames.
+func recursingFunc() string {
+	var pcs [256]uintptr
+	n := runtime.Callers(2, pcs[:])
+	fr := runtime.CallersFrames(pcs[:n])
+	count := map[string]int{}
+	for {
+		f, more := fr.Next()
+		if i := strings.Index(f.Function, "compose-go/v2/"); i >= 0 && !strings.Contains(f.Function, "/zsimrt.") {
+			count[f.Function[i+len("compose-go/v2/"):]]++
+		}
+		if !more {
+			break
+		}
+	}
+	best, bn := "?", 0
+	for k, v := range count {
+		if v > bn || (v == bn && k < best) {
+			best, bn = k, v
+		}
+	}
+	return best
+}
+
+func callerName(skip int) string {
+	pc, _, _, ok := runtime.Caller(skip)
+	if !ok {
+		return "?"
+	}
+	n := runtime.FuncForPC(pc).Name()
+	if i := strings.Index(n, "compose-go/v2/"); i >= 0 {
+		n = n[i+len("compose-go/v2/"):]
+	}
+	return n
 }
 
 // ---------------------------------------------------------------- R1 map order
@@ -280,7 +333,7 @@ func Keys[M ~map[K]V, K comparable, V any](site string, m M) []K {
 	}
 	r.KeysCalls++
 	if r.KeysCalls > r.MaxKeys {
-		panic(BudgetExceeded{"map-ranges", r.KeysCalls})
+		panic(BudgetExceeded{"map-ranges", r.KeysCalls, site})
 	}
 	if len(ks) < 2 {
 		return ks
@@ -470,6 +523,7 @@ func (r *Run) Schedule() int {
 func (r *Run) ResetCounters() {
 	r.Steps = 0
 	r.KeysCalls = 0
+	r.Depth = 0
 }
 
 // ---------------------------------------------------------------- R5 package variable log
